@@ -121,7 +121,7 @@ def run(ctx):
     n = 1200 if ctx.tier == "quick" else 20000
     srcs, feats = [], {}
     for _ in range(n):
-        src, fs = progs.generate(ctx.rng, max_depth=ctx.rng.choice([2, 3, 3, 4]), allow_trigger=True)
+        src, fs = progs.generate_case(ctx.rng, max_depth=ctx.rng.choice([2, 3, 3, 4]), allow_trigger=True, allow_singletons=True)
         srcs.append(src)
         for f in fs:
             feats[f] = feats.get(f, 0) + 1
